@@ -60,7 +60,19 @@ GUARDS_STATIC = {
     "x&0xff==0x2a": eq(binop("AND", X, k(0xFF)), k(0x2A)),
     "y==5": eq(Y, k(5)),
     "x*y==s": eq(binop("MUL", X, Y), S),
+    # division / remainder by zero is zero in the EVM: reachable only with y == 0 and a non-zero dividend
+    "y==0&&x==7": binop("AND", eq(Y, k(0)), eq(X, k(7))),
+    "x/y==0": eq(binop("DIV", X, Y), k(0)),
+    "x%y==0": eq(binop("MOD", X, Y), k(0)),
+    "x sdiv y==0": eq(binop("SDIV", X, Y), k(0)),
+    "x smod y==0": eq(binop("SMOD", X, Y), k(0)),
+    "y==0": eq(Y, k(0)),
+    "x/y==s": eq(binop("DIV", X, Y), S),
+    "x%y==s": eq(binop("MOD", X, Y), S),
+    "x sdiv y==s": eq(binop("SDIV", X, Y), S),
+    "x smod y==s": eq(binop("SMOD", X, Y), S),
 }
+DIV0_PAIRS = [("y==0&&x==7", g) for g in ("x/y==0", "x%y==0", "x sdiv y==0", "x smod y==0")]
 STATIC_QUICK = ["x==42", "x!=y", "x<3", "x<s0", "x+y==1", "x*y==6", "x/y==3", "x%y==2", "x**2==9", "keccak(x)==keccak(5)", "x==s", "y==5"]
 REFINE_GUARDS = ["x*y==6", "x/y==3", "x%y==2", "x sdiv y==-2", "x*y==s", "x**2==9"]
 
